@@ -242,7 +242,8 @@ def queries(tier):
                 qs.append(Query(f"bmc_len{L}_stall{s}", ff, nw + 8, layer={"ready": (lambda t, s=s: int(t != s))},
                                 split=False, covers=["done"], timeout=300,
                                 desc=f"len{L}: ready low only in cycle {s} (concrete layer)"))
-    for L, pn in (((3, "always"),) if quick else ((3, "always"), (4, "every2"))):
+    # (length 0 = nothing offered on data_sink: what a retransmission looks like, whose payload stream ended with the first try)
+    for L, pn in (((3, "always"), (0, "always")) if quick else ((3, "always"), (4, "every2"), (0, "always"), (0, "every2"))):
         ff = (lambda L=L: TxFramingHarness(length=L, delayed=True))
         nw = ff().nwords
         qs.append(Query(f"bmc_delayed_len{L}_{pn}", ff, nw * 2 + 6, layer={"ready": _pat(pn)}, split=False,
